@@ -261,6 +261,50 @@ fn body_fast_check(slots: usize) -> impl Fn(&Ch) -> Run + Sync + Send {
   }
 }
 
+/// Worlds with a WebAssembly module that has imports of its own.
+fn body_wasm(ch: &Ch) -> Run {
+  let mut run = Run::default();
+  let w = crate::props::c01::wasm_choices(ch);
+  let build = |kind: GraphKind| {
+    let sched = Sched::new(SchedMode::Immediate);
+    let loader = ScriptedLoader::new(sched);
+    let root = crate::props::c01::wasm_install(&w, &loader);
+    let mut g = ModuleGraph::new(kind);
+    let r = build_graph(&mut g, vec![root], &loader, BuildCfg::default(), ch);
+    (g, r)
+  };
+  let (mut all, r1) = build(GraphKind::All);
+  let (code, r2) = build(GraphKind::CodeOnly);
+  if r1.is_err() || r2.is_err() {
+    run.violate("build-did-not-finish", "deadlock", w.describe.clone());
+    return run;
+  }
+  all.prune_types();
+  run.evals = 1;
+  let a = code_view(&all);
+  let c = code_view(&code);
+  let case = || json!({"world": w.describe, "pruned": a, "code_only": c});
+  if a != c {
+    let comp = ["slots", "redirects", "code_edges", "valid", "has_node_specifier"].iter().find(|k| a[**k] != c[**k]).unwrap();
+    let detail = diff_detail(&a[*comp], &c[*comp]);
+    run.violate(format!("pruned-differs-from-code-only@{comp}:{}", detail.0), format!("prune_types() of a graph with a WebAssembly module differs from a CodeOnly build in `{comp}`: {}", detail.1), case());
+  }
+  for m in all.modules() {
+    for (t, d) in m.dependencies() {
+      if !d.maybe_type.is_none() || d.maybe_deno_types_specifier.is_some() {
+        run.violate("pruned-keeps-type-resolution", format!("{} dep {t:?}", m.specifier()), case());
+      }
+    }
+  }
+  run.state_key = hash_of(&(format!("{:?}", w.imports), w.via_ts));
+  run.nontrivial = !w.imports.is_empty();
+  run.outcome_key = hash_json(&c);
+  if ch.describe() {
+    run.sample = Some(w.describe.clone());
+  }
+  run
+}
+
 /// (class, text) for the first difference between two JSON maps
 pub fn diff_detail(a: &Value, b: &Value) -> (String, String) {
   if let (Some(ma), Some(mb)) = (a.as_object(), b.as_object()) {
@@ -319,6 +363,12 @@ pub fn prop(tier: Tier) -> Prop {
     ],
   };
   let mut parts = parts;
+  parts.push(Part {
+    name: "wasm-imports",
+    body: Box::new(body_wasm),
+    modes: vec![Mode::Full],
+    what: "worlds with a generated WebAssembly module that has imports of its own: All + prune_types() vs CodeOnly",
+  });
   parts.push(Part {
     name: "fast-check",
     body: Box::new(body_fast_check(2)),
